@@ -21,6 +21,7 @@ import Bmc.Proofs.GenEnc.V2Session
 import Bmc.Proofs.GenEnc.AES128CBC
 import Bmc.Proofs.EndToEnd.RequestsC06
 import Bmc.Proofs.EndToEnd.DatagramC06
+import Bmc.Proofs.EndToEnd.HistoryC06
 #print axioms Bmc.Proofs.C06.packet_parses
 #print axioms Bmc.Proofs.C06.payload_packet_parses
 #print axioms Bmc.Proofs.C06.operation_table
@@ -97,3 +98,5 @@ import Bmc.Proofs.EndToEnd.DatagramC06
 #print axioms Bmc.Proofs.EndToEnd.generated_powerreading_normal_request
 #print axioms Bmc.Proofs.EndToEnd.generated_sessionless_datagram_parses
 #print axioms Bmc.Proofs.EndToEnd.generated_payload_datagram_parses
+#print axioms Bmc.Proofs.EndToEnd.requestMessage_eq
+#print axioms Bmc.Proofs.EndToEnd.generated_history_requests_parse
